@@ -567,6 +567,130 @@ func onlyLoadedFrom(ia *ssa.IndexAddr) bool {
 	return true
 }
 
+// initOnlyGlobal: nothing outside the package initialiser can change what g holds: every use of g outside init is
+// a load of the whole value, len/cap, or an element/field address that is only loaded from.
+func (p *Prog) initOnlyGlobal(g *ssa.Global) bool {
+	key := "initonly:" + g.Name()
+	if v, ok := p.cache[key]; ok {
+		return v.(bool)
+	}
+	p.cache[key] = false
+	for _, fn := range p.AllFuncs() {
+		if fn.Name() == "init" && fn.Parent() == nil {
+			continue
+		}
+		for _, b := range fn.Blocks {
+			for _, ins := range b.Instrs {
+				uses := false
+				for _, op := range ins.Operands(nil) {
+					if *op == ssa.Value(g) {
+						uses = true
+					}
+				}
+				if !uses {
+					continue
+				}
+				switch x := ins.(type) {
+				case *ssa.DebugRef:
+				case *ssa.UnOp:
+					if x.Op != token.MUL {
+						return false
+					}
+					// a copy of the value; for a slice or map the copy shares the storage: its uses must be reads too
+					switch x.Type().Underlying().(type) {
+					case *types.Slice, *types.Map, *types.Pointer:
+						if x.Referrers() != nil {
+							for _, r := range *x.Referrers() {
+								switch y := r.(type) {
+								case *ssa.DebugRef, *ssa.Range, *ssa.Lookup:
+								case *ssa.Call:
+									if bi, isB := y.Call.Value.(*ssa.Builtin); !isB || (bi.Name() != "len" && bi.Name() != "cap") {
+										return false
+									}
+								case *ssa.IndexAddr:
+									if !onlyLoadedFrom(y) {
+										return false
+									}
+								default:
+									return false
+								}
+							}
+						}
+					}
+				case *ssa.IndexAddr:
+					if !onlyLoadedFrom(x) {
+						return false
+					}
+				case *ssa.FieldAddr:
+					if x.Referrers() != nil {
+						for _, r := range *x.Referrers() {
+							switch r.(type) {
+							case *ssa.DebugRef, *ssa.UnOp:
+							default:
+								return false
+							}
+						}
+					}
+				default:
+					return false
+				}
+			}
+		}
+	}
+	p.cache[key] = true
+	return true
+}
+
+// initArrayAllNonNil: g is an init-only package-level array whose every element is stored once in init with a
+// function, closure or address (never nil).
+func (p *Prog) initArrayAllNonNil(g *ssa.Global) bool {
+	key := "initarrnn:" + g.Name()
+	if v, ok := p.cache[key]; ok {
+		return v.(bool)
+	}
+	p.cache[key] = false
+	pt, ok := g.Type().Underlying().(*types.Pointer)
+	if !ok {
+		return false
+	}
+	at, ok := pt.Elem().Underlying().(*types.Array)
+	if !ok || !p.initOnlyGlobal(g) {
+		return false
+	}
+	init := p.SSA.Func("init")
+	if init == nil {
+		return false
+	}
+	set := map[int64]bool{}
+	for _, b := range init.Blocks {
+		for _, ins := range b.Instrs {
+			st, ok := ins.(*ssa.Store)
+			if !ok {
+				continue
+			}
+			ia, ok := st.Addr.(*ssa.IndexAddr)
+			if !ok || ia.X != ssa.Value(g) {
+				continue
+			}
+			k, isC := constInt(ia.Index)
+			if !isC {
+				return false
+			}
+			switch st.Val.(type) {
+			case *ssa.Function, *ssa.MakeClosure, *ssa.Alloc, *ssa.Global, *ssa.FieldAddr, *ssa.IndexAddr, *ssa.MakeInterface:
+				set[k] = true
+			default:
+				return false
+			}
+		}
+	}
+	if int64(len(set)) != at.Len() {
+		return false
+	}
+	p.cache[key] = true
+	return true
+}
+
 // constStructTable: g is a package-level slice of structs that init assigns once, from an array literal whose
 // field f receives constants only, and that nothing else in the package can modify (every other use of g is a load
 // whose value is only measured with len, ranged over or indexed for reading).  Returns the range of field f.
